@@ -90,7 +90,7 @@ Bin(op, a, b, x, y) ==
       [] op = "Or"  -> LET u == Unify(a, b) IN Norm(OrPat(x, y, u.w), u)
       [] op = "Xor" -> LET u == Unify(a, b) IN Norm(XorPat(x, y, u.w), u)
       [] op = "Shl" -> x * Pow2(y)
-      [] op = "Shr" -> x \div Pow2(y)
+      [] op = "Shr" -> IF y >= 30 THEN (IF x < 0 THEN -1 ELSE 0) ELSE x \div Pow2(y)   \* (|x| < 2^30: same value)
 Binary(op) ==
     /\ op \in Ops /\ Len(stack) >= 2
     /\ LET a == Top(1)
